@@ -87,8 +87,12 @@ def gen_field(rng, n, width, style, pos=None):
     return [[F(rng.randint(-2 ** 20, 2 ** 20), 2 ** rng.randint(0, 12)) for _ in range(width)] for _ in range(n)]
 
 
-def as_array(rows, one_d=False):
-    a = np.array([[float(v) for v in r] for r in rows], dtype=float)
+def as_array(rows, one_d=False, int_dtype=False):
+    if int_dtype:          # integer-valued field handed over as an int64 array (what np.arange / counting produces)
+        assert all(F(v).denominator == 1 for r in rows for v in r)
+        a = np.array([[int(v) for v in r] for r in rows], dtype=np.int64)
+    else:
+        a = np.array([[float(v) for v in r] for r in rows], dtype=float)
     return a[:, 0] if one_d else a
 
 
@@ -123,11 +127,11 @@ def true_metrics(m):
 
 # ------------------------------------------------------------------------------------------ nodal -> elemental
 
-def check_n2e(m, rows, affine=None, one_d=False):
+def check_n2e(m, rows, affine=None, one_d=False, int_dtype=False):
     """oracle on the real API; returns (failures, real result or None, error)"""
     fd = K.to_fem(m)
     width = len(rows[0])
-    x = as_array(rows, one_d)
+    x = as_array(rows, one_d, int_dtype)
     try:
         r = G.quiet(fd.convert_nodal2elemental, x, calc_average=True)
     except ValueError as e:
@@ -240,10 +244,13 @@ def check_n2e_history(m, rows1, rows2, how, affine2=None, name='T'):
 
 # ------------------------------------------------------------------------------------------ elemental -> nodal
 
-def run_e2n(m, rows, mode, wkind, weights, one_d=False):
+def run_e2n(m, rows, mode, wkind, weights, one_d=False, incidence=None):
     fd = K.to_fem(m)
     x = as_array(rows, one_d)
     kw = {}
+    if incidence == 'explicit-full':      # the documented `incidence=` parameter, given the mesh's own incidence matrix
+        type(fd).calculate_incidence_matrix.cache_clear()
+        kw['incidence'] = G.quiet(fd.calculate_incidence_matrix)
     if wkind == 'false':
         kw['weight'] = False
     elif wkind == 'explicit':
@@ -253,13 +260,13 @@ def run_e2n(m, rows, mode, wkind, weights, one_d=False):
     return np.asarray(r, float).reshape(len(m['nodes']), -1)
 
 
-def check_e2n(m, rows, mode, wkind, weights, one_d=False):
+def check_e2n(m, rows, mode, wkind, weights, one_d=False, incidence=None):
     """oracle on the real API: the laws of the property"""
     fl = flat_elems(m)
     ne, nn = len(fl), len(m['nodes'])
     width = len(rows[0])
     try:
-        r = run_e2n(m, rows, mode, wkind, weights, one_d)
+        r = run_e2n(m, rows, mode, wkind, weights, one_d, incidence)
     except NotImplementedError as e:
         return [], None, 'not_implemented:' + str(e)[:40]
     # incidence from the definition
@@ -349,8 +356,10 @@ def tie_e2n(ctx, m, rows, mode, wkind, weights, real, case):
                 return
 
 
-def check_order1(m, rows):
-    """oracle only: order1_only=True on tet2 (rows = first-order nodes in storage order)"""
+def check_order1(m, rows, explicit=False):
+    """oracle only: order1_only=True on tet2 (rows = first-order nodes in storage order); explicit=True: the same conversion
+    requested through the documented `incidence=` parameter (incidence = calculate_incidence_matrix(order1_only=True), i.e. an
+    incidence matrix over another node set than the full connectivity) with order1_only left at its default"""
     fd = K.to_fem(m)
     fl = flat_elems(m)
     x = as_array(rows)
@@ -358,7 +367,12 @@ def check_order1(m, rows):
     corner = set(n for _, _, c in fl for n in c[:4])
     for mode in ('mean', 'effective'):
         with np.errstate(all='ignore'):
-            r = np.asarray(G.quiet(fd.convert_elemental2nodal, x, mode=mode, order1_only=True, weight=False), float)
+            if explicit:
+                type(fd).calculate_incidence_matrix.cache_clear()
+                inc = G.quiet(fd.calculate_incidence_matrix, order1_only=True)
+                r = np.asarray(G.quiet(fd.convert_elemental2nodal, x, mode=mode, weight=False, incidence=inc), float)
+            else:
+                r = np.asarray(G.quiet(fd.convert_elemental2nodal, x, mode=mode, order1_only=True, weight=False), float)
         ids = [i for i, _ in m['nodes'] if i in corner]
         if len(r) != len(ids):
             # unreferenced nodes are also "first order" for femio's filter: accept rows for all non-mid nodes
@@ -377,12 +391,73 @@ def check_order1(m, rows):
             else:
                 want = x[js].sum(axis=0) / 4
             if not np.allclose(r[k], want, rtol=0, atol=TOL * max(1, np.abs(x).max())):
-                out.append((f'e2n-order1:{mode}', f'order1_only, node {i}: wrong value', {'got': r[k].tolist(), 'expected': want.tolist()}))
+                out.append((f'e2n-order1:{mode}' + (':explicit-incidence' if explicit else ''),
+                            ('explicit first-order incidence=' if explicit else 'order1_only') + f', node {i}: wrong value '
+                            + ('(not the mean of the touching elements)' if mode == 'mean' else '(not the sum of equal shares 1/4)'),
+                            {'got': r[k].tolist(), 'expected': want.tolist()}))
                 break
+        else:
+            if mode == 'effective' and not np.allclose(r.sum(axis=0), x.sum(axis=0), rtol=0, atol=TOL * max(1, np.abs(x).max()) * len(x)):
+                out.append(('e2n-order1:effective:total' + (':explicit-incidence' if explicit else ''),
+                            'grand total not conserved (effective, first-order nodes)',
+                            {'in': x.sum(axis=0).tolist(), 'out': r.sum(axis=0).tolist()}))
     return out
 
 
 # ------------------------------------------------------------------------------------------ run
+
+def e2n_block(ctx, rng, m, mj, k, shared, stream=None, wscale=1, tie=True, combos=None, incidence=None):
+    """the elemental -> nodal cases of one mesh (main loop: stream=None; the random draws are those of the original inline
+    code).  stream: label of a separately counted stream (part of the case key and of the replay input); wscale: factor on
+    the explicit weights (absolute-scale stream: the weights are as small as the elements); incidence: see run_e2n"""
+    fl = flat_elems(m)
+    ne = len(fl)
+    tag = () if stream is None else (stream,)
+    for mode, wkind in (combos or [('mean', 'implicit'), ('mean', 'explicit'), ('mean', 'false'), ('effective', 'none')]):
+        width = rng.randint(1, 6)
+        style = rng.choice(['dyadic', 'int', 'const', 'indicator'])
+        one_d = width == 1 and rng.random() < .3
+        if style == 'indicator':
+            width = min(ne, 6)
+            js = rng.sample(range(ne), width)
+            fld = [[F(int(j == jj)) for jj in js] for j in range(ne)]
+            one_d = False
+        else:
+            fld = gen_field(rng, ne, width, style)
+        weights = [F(rng.randint(1, 64), 8) * wscale for _ in range(ne)] if wkind == 'explicit' else None
+        wk = wkind if mode == 'mean' else 'none'
+        if wkind == 'implicit' and K.is_shell(m):
+            # areas are irrational: the model gets the real metrics as explicit weights (C11 ties the metrics)
+            tm = true_metrics(m)
+        case = {'check': 'e2n', 'mesh': mj, 'field': field_json(fld), 'mode': mode, 'weights_kind': wk, 'one_d': one_d,
+                'weights': None if weights is None else [str(w) for w in weights]}
+        if stream is not None:
+            case['stream'] = stream
+        if incidence is not None:
+            case['incidence'] = incidence
+        fails, real, err = check_e2n(m, fld, mode, wk, weights, one_d, incidence)
+        ctx.case(tag + ('e2n', k, mode, wk, width, style),
+                 sample={'check': 'e2n', 'mesh': G.describe(m), 'mode': mode, 'weights': wk, 'width': width, 'field': style}
+                 if 2 <= len(ctx.samples) < 5 else None, nontrivial=shared)
+        ctx.count(f'e2n:{mode}:{wk}:' + (err.split(':')[0] if err else 'ok') + ('' if stream is None else ':' + stream))
+        for sig, what, obs in fails:
+            ctx.fail(sig, what, case, obs)
+        if real is None or ctx.driver is None or not tie:
+            continue
+        small = {k_: v for k_, v in case.items() if k_ != 'mesh'} | {'mesh': G.describe(m)}
+        if mode == 'effective':
+            tie_e2n(ctx, m, fld, mode, 'false', None, real, small)
+        elif wkind == 'implicit' and (K.is_shell(m) or len(m['blocks']) > 1):
+            # implicit weights of shells (irrational) and of mixed meshes (C11 finding: bound to the wrong elements):
+            # the model is given what calculate_element_metrics returns on this mesh
+            fd = K.to_fem(m)
+            mt = np.asarray(G.quiet(fd.calculate_element_metrics), float).ravel()
+            tie_e2n(ctx, m, fld, mode, 'explicit', [F(float(v)) for v in mt], real, small)
+            ctx.count('tie:implicit-as-explicit')
+        else:
+            tie_e2n(ctx, m, fld, mode, wk, weights, real, small)
+
+
 
 def run(ctx):
     rng = ctx.rng
@@ -408,9 +483,12 @@ def run(ctx):
         aff = None
         if isinstance(fld, tuple):
             fld, aff = fld
-        case = {'check': 'n2e', 'mesh': mj, 'field': field_json(fld), 'one_d': one_d,
+        int_dtype = style == 'int' and (k // len(kinds)) % 2 == 0        # integer field handed over as an int64 array
+        case = {'check': 'n2e', 'mesh': mj, 'field': field_json(fld), 'one_d': one_d, 'int_dtype': int_dtype,
                 'affine': None if aff is None else [[[str(v) for v in r] for r in aff[0]], [str(v) for v in aff[1]]]}
-        fails, real, err = check_n2e(m, fld, aff, one_d)
+        fails, real, err = check_n2e(m, fld, aff, one_d, int_dtype)
+        if int_dtype:
+            ctx.count('n2e:field-dtype:int64')
         ctx.case(('n2e', k, width, style), sample={'check': 'n2e', 'mesh': G.describe(m), 'width': width, 'field': style}
                  if len(ctx.samples) < 2 else None, nontrivial=shared)
         ctx.count('n2e:' + (err.split(':')[0] if err else 'ok') + (':mixed' if len(m['blocks']) > 1 else ''))
@@ -420,51 +498,17 @@ def run(ctx):
         if real is not None and ctx.driver is not None:
             tie_n2e(ctx, m, fld, real, {k_: v for k_, v in case.items() if k_ != 'mesh'} | {'mesh': G.describe(m)})
         # ---- elemental -> nodal
-        for mode, wkind in [('mean', 'implicit'), ('mean', 'explicit'), ('mean', 'false'), ('effective', 'none')]:
-            width = rng.randint(1, 6)
-            style = rng.choice(['dyadic', 'int', 'const', 'indicator'])
-            one_d = width == 1 and rng.random() < .3
-            if style == 'indicator':
-                width = min(ne, 6)
-                js = rng.sample(range(ne), width)
-                fld = [[F(int(j == jj)) for jj in js] for j in range(ne)]
-                one_d = False
-            else:
-                fld = gen_field(rng, ne, width, style)
-            weights = [F(rng.randint(1, 64), 8) for _ in range(ne)] if wkind == 'explicit' else None
-            wk = wkind if mode == 'mean' else 'none'
-            if wkind == 'implicit' and K.is_shell(m):
-                # areas are irrational: the model gets the real metrics as explicit weights (C11 ties the metrics)
-                tm = true_metrics(m)
-            case = {'check': 'e2n', 'mesh': mj, 'field': field_json(fld), 'mode': mode, 'weights_kind': wk, 'one_d': one_d,
-                    'weights': None if weights is None else [str(w) for w in weights]}
-            fails, real, err = check_e2n(m, fld, mode, wk, weights, one_d)
-            ctx.case(('e2n', k, mode, wk, width, style),
-                     sample={'check': 'e2n', 'mesh': G.describe(m), 'mode': mode, 'weights': wk, 'width': width, 'field': style}
-                     if 2 <= len(ctx.samples) < 5 else None, nontrivial=shared)
-            ctx.count(f'e2n:{mode}:{wk}:' + (err.split(':')[0] if err else 'ok'))
-            for sig, what, obs in fails:
-                ctx.fail(sig, what, case, obs)
-            if real is None or ctx.driver is None:
-                continue
-            small = {k_: v for k_, v in case.items() if k_ != 'mesh'} | {'mesh': G.describe(m)}
-            if mode == 'effective':
-                tie_e2n(ctx, m, fld, mode, 'false', None, real, small)
-            elif wkind == 'implicit' and (K.is_shell(m) or len(m['blocks']) > 1):
-                # implicit weights of shells (irrational) and of mixed meshes (C11 finding: bound to the wrong elements):
-                # the model is given what calculate_element_metrics returns on this mesh
-                fd = K.to_fem(m)
-                mt = np.asarray(G.quiet(fd.calculate_element_metrics), float).ravel()
-                tie_e2n(ctx, m, fld, mode, 'explicit', [F(float(v)) for v in mt], real, small)
-                ctx.count('tie:implicit-as-explicit')
-            else:
-                tie_e2n(ctx, m, fld, mode, wk, weights, real, small)
+        e2n_block(ctx, rng, m, mj, k, shared)
         if kind == 'tet2':
             fld = gen_field(rng, ne, 3, 'int')
             ctx.case(('order1', k))
             ctx.count('order1_only')
             for sig, what, obs in check_order1(m, fld):
                 ctx.fail(sig, what, {'check': 'order1', 'mesh': mj, 'field': field_json(fld)}, obs)
+            ctx.case(('order1-explicit-incidence', k))
+            ctx.count('order1:explicit-incidence')
+            for sig, what, obs in check_order1(m, fld, explicit=True):
+                ctx.fail(sig, what, {'check': 'order1', 'explicit': True, 'mesh': mj, 'field': field_json(fld)}, obs)
     # ---- histories: convert a named field, overwrite it, convert again on the same object (drawn after the main loop so
     #      that its cases are unchanged for a given seed)
     hkinds = ['tet', 'hex', 'shell:tri', 'shell:quad', 'tet2', 'prism', 'pyr', 'tet', 'shell:mixed', 'hex']
@@ -519,12 +563,12 @@ def replay(ctx, obj):
         aff = case.get('affine')
         if aff:
             aff = ([[F(v) for v in r] for r in aff[0]], [F(v) for v in aff[1]])
-        fails, real, err = check_n2e(m, fld, aff, case.get('one_d', False))
+        fails, real, err = check_n2e(m, fld, aff, case.get('one_d', False), case.get('int_dtype', False))
     elif case['check'] == 'order1':
-        fails, err = check_order1(m, fld), None
+        fails, err = check_order1(m, fld, explicit=case.get('explicit', False)), None
     else:
         wk = case['weights_kind']
         w = None if case.get('weights') is None else [F(x) for x in case['weights']]
-        fails, real, err = check_e2n(m, fld, case['mode'], wk, w, case.get('one_d', False))
+        fails, real, err = check_e2n(m, fld, case['mode'], wk, w, case.get('one_d', False), case.get('incidence'))
     return {'case': {k: v for k, v in case.items() if k not in ('mesh', 'field')}, 'error': err,
             'failures': [{'signature': s, 'what': w_, 'observed': o} for s, w_, o in fails], 'fails': bool(fails)}
